@@ -455,21 +455,6 @@ def fixed_variant():
     return _VARIANT["fx"]
 
 
-def masked_fixed_variant():
-    """True when the working tree reports the masked-TypeError witness (A:1,B:3,C) at precision 0.5
-    as UltrametricityError (error message no longer adds a None length)."""
-    if "mfix" not in _VARIANT:
-        lf = lambda i, x, l: {"id": i, "taxon": x, "label": None, "len": l, "kids": []}
-        w = {"id": 0, "taxon": None, "label": None, "len": None, "kids": [lf(1, 0, 1024), lf(2, 1, 3072), lf(3, 2, None)]}
-        tree, _ = build(w)
-        try:
-            tree.calc_node_ages(ultrametricity_precision=0.5)
-            _VARIANT["mfix"] = False
-        except Exception as e:
-            _VARIANT["mfix"] = cerr_enum(e) == "Ultra"
-    return _VARIANT["mfix"]
-
-
 # ----------------------------------------------------------------------------------------------
 # Coq rendering
 # ----------------------------------------------------------------------------------------------
@@ -524,8 +509,8 @@ def to_coq(case, obs):
         mn = 0 if case["mn_default"] else case["mn"]
         sl = obs["setlen"]
         slc = "(Err OtherErr)" if sl is None else c_res(sl, trees.c_tree)
-        return "(CaseAges %s %s %s %s %s %s %s %s %s %s)" % (cbool(fixed_variant()), cbool(masked_fixed_variant()), t, cfg,
-                                                          cbool(case["io"]), o, so, copt(mn, cz), cbool(case["eon"]), slc)
+        return "(CaseAges %s %s %s %s %s %s %s %s %s)" % (cbool(fixed_variant()), t, cfg,
+                                                       cbool(case["io"]), o, so, copt(mn, cz), cbool(case["eon"]), slc)
     if case["kind"] == "depth":
         lin = clist([cpair(cz(x), c_res(r, cz)) for x, r in obs["lineages"]])
         return "(CaseDepth %s %s %s %s %s %s %s %s %s %s)" % (
@@ -539,9 +524,9 @@ def to_coq(case, obs):
     sac = [cpair(NORM_COQ[nm], c_sobs(o)) for nm, o in zip(NORMS, obs["sackin"])]
     sac.append(cpair("NTrue", c_sobs(obs["sackin_default"])))        # default normalize=True
     gam = clist([cpair(c_prec(p), c_gobs(o)) for p, o in zip(case["gprecs"], obs["gamma"])])
-    return "(CaseStats %s %s %s %s %s %s %s %s %s %s)" % (cbool(fixed_variant()), cbool(masked_fixed_variant()), t, tr,
-                                                       c_sobs(obs["b1"]), clist(col), clist(sac), c_sobs(obs["nbar"]),
-                                                       c_sobs(obs["treeness"]), gam)
+    return "(CaseStats %s %s %s %s %s %s %s %s %s)" % (cbool(fixed_variant()), t, tr,
+                                                    c_sobs(obs["b1"]), clist(col), clist(sac), c_sobs(obs["nbar"]),
+                                                    c_sobs(obs["treeness"]), gam)
 
 
 # ----------------------------------------------------------------------------------------------
@@ -790,7 +775,8 @@ def oracle_stats(case, obs):
     # gamma (Pybus & Harvey 2000) from lineages through time, on exactly ultrametric binary trees
     td = tip_distances(spec)
     exact = all(max(v) == min(v) for v in td.values())
-    if binary and exact and n >= 3 and all(nd["len"] is not None for nd in nonroot):
+    # (with a negative length a child is older than its parent and "lineages through time" is undefined)
+    if binary and exact and n >= 3 and all(nd["len"] is not None and nd["len"] >= 0 for nd in nonroot):
         ages = sorted((td[nd["id"]][0] for nd in internal), reverse=True)   # n-1 speciation times
         g = {}
         for k in range(2, n + 1):          # g_k: time during which k lineages exist
@@ -891,10 +877,41 @@ def search(ctx, budget_s):
     ctx.notes.append("search: %d further cases through the oracle, no unlisted violation" % n)
 
 
+def proof_stage_stable(ctx):
+    """core.proof_stage, repeated when another check regenerated coq/Gen/Ages.v from a different source
+    tree between our regeneration and our build (coq/Gen is shared; only relevant under DV_REPO)."""
+    import os
+    from dv import gen_ages
+    ok = False
+    for _attempt in range(4):
+        n_obl, n_notes = len(ctx.obligations), len(ctx.notes)
+        ok = core.proof_stage(ctx, ["Props/C17.vo"], gen_needed=("Ages",))
+        try:
+            expected = gen_ages.generate(core.REPO)
+        except Exception:
+            return ok               # the translator failed closed: already recorded by proof_stage
+        try:
+            with open(os.path.join(core.COQ, "Gen", "Ages.v")) as f:
+                actual = f.read()
+        except OSError:
+            actual = None
+        if actual == expected:
+            ctx.obligation("coq/Gen/Ages.v is the translation of the source tree under check", True)
+            return ok
+        del ctx.obligations[n_obl:]
+        del ctx.notes[n_notes:]
+    ctx.obligation("coq/Gen/Ages.v is the translation of the source tree under check", False)
+    ctx.notes.append("coq/Gen/Ages.v kept being overwritten by concurrent checks of another source tree")
+    return False
+
+
 def run(tier, seed, replay=None):
     ctx = core.Ctx("C17", tier, seed)
     ctx.assumptions = [
-        "model coq/Model/C17Model.v is a hand transcription of the anchored methods; tied by this correspondence run",
+        "model coq/Model/C17Model.v is a hand transcription of the anchored methods; tied by this correspondence run and, for "
+        "calc_node_ages / calc_node_root_distances / num_lineages_at / B1 / colless / sackin / N_bar / treeness, by the translator "
+        "py/dv/gen_ages.py (coq/Gen/Ages.v regenerated from the source every run) with machine-checked equalities generated = model "
+        "(Props/C17.v gen_*_eq); trusted there: the Python meaning of the primitives in coq/Model/C17Prims.v",
         "exact arithmetic: lengths/ages/precisions are integers in units of 2^-10 (binary64 +,- exact on the generated trees); "
         "a float precision p is represented by floor(p/unit), which decides d > p identically for every integer d",
         "float-valued statistics are compared with the model's exact rational within 1e-12*(1+|a|+|b|); ln n, ln 2, n^1.5 and "
@@ -915,10 +932,7 @@ def run(tier, seed, replay=None):
     ctx.notes.append("ultrametricity test of the working tree: %s"
                      % ("global (repaired form, model calc_node_ages_fix)" if fixed_variant()
                         else "local to first-child paths (model calc_node_ages; F16 present)"))
-    ctx.notes.append("error message of the working tree: %s"
-                     % ("no longer adds a None length (masked-TypeError repaired)" if masked_fixed_variant()
-                        else "adds the length of later siblings (TypeError masks UltrametricityError when one is None)"))
-    ok = core.proof_stage(ctx, ["Props/C17.vo"], gen_needed=("__none__",))
+    ok = proof_stage_stable(ctx)
     if not ok:
         core.broken_proof(ctx, search)
     n = 800 if tier == "quick" else 20000
